@@ -14,6 +14,18 @@ CHECKS = {
    text="Explicit-state breadth-first search over all operation histories up to a depth (from the empty state and from ramped states with 5-7/127-130 holders and depth 253), each transition executed on the real engine and compared with a sequential reference model of ownership and re-entrant depth. Exhaustive within alphabet and depth.",
    note="Trusted: instrumenter+runtime (see C01), the RefLockDB reference (written from the documented semantics; disagreements on the unchanged tree were triaged by hand), the canonical state key used for merging (cross-checked against an unmerged tree at smaller depth).",
    technique="explicit-state model checking of the implementation: BFS over operation histories by replay, canonical-state deduplication, reference-model oracle"),
+ "C03": dict(level="exploration", design="4/C03",
+   text="Deviation-bounded exhaustive schedule exploration of client threads racing the timeout/expiry sweepers and wake-ups on the real engine, plus exhaustive operation histories to a depth, each drained; the reply multiset per connection is judged (exactly one terminal reply per request, at most one EXPRIED per grant, no foreign RequestId).",
+   note="Trusted: instrumenter+runtime (see C01). In-memory connections only in this check; bounds: <=2/3 deviations, history depth 4/5.",
+   technique="stateless model checking (deviation-bounded schedule DFS) + explicit-state BFS over histories, reply-multiset oracle"),
+ "C04": dict(level="exploration", design="4/C04",
+   text="Schedule exploration of unlockers / newcomers / cancellers / timeout sweeper (quiescent invariant: live head waiter never admissible; every waiter answered) plus exhaustive queueing histories from empty and ramped queues (7-9, 127-130 waiters, priority switch) against the reference grant order.",
+   note="Trusted: instrumenter+runtime, RefLockDB's stable-priority-queue order; wait-when-unlocked excluded from the alphabet by design.",
+   technique="stateless model checking (deviation-bounded schedule DFS) + explicit-state BFS over histories with reference-model oracle"),
+ "C17": dict(level="model_checking", design="4/C17",
+   text="Explicit-state BFS over histories: after every step the reported counts (LCount, LRCount, STATE counters) equal a census of the engine's live structures and the reference model; every state is drained and must be empty. The same census/drain oracle runs on all concurrent scenarios of C01/C03/C04 under deviation-bounded schedule exploration.",
+   note="Trusted: instrumenter+runtime, the census walker (in-package harness), RefLockDB for LCount/LRCount.",
+   technique="explicit-state model checking by replay (canonical-state BFS) + deviation-bounded schedule DFS, census oracle"),
 }
 NA_DEFAULT = "check not built yet in this round (planned: see DESIGN.md section 4)"
 
